@@ -300,6 +300,28 @@ def module_constants(repo, module):
     return _MODULE_CONSTANTS[key]
 
 
+def _in_comprehension(stmt, call):
+    for n in ast.walk(stmt):
+        if isinstance(n, (ast.ListComp, ast.SetComp, ast.DictComp, ast.GeneratorExp, ast.Lambda)) and any(x is call for x in ast.walk(n)):
+            return True
+    return False
+
+
+def makes_closures(node):
+    """the function creates closures (lambdas, generator expressions) over its own variables: each
+    call binds them anew, so its body may not be copied into a loop of a caller -- there the
+    closures of all passes would share the caller's variable"""
+    a = node.args
+    own = _assigned(node) | set(_params(node)) | ({a.vararg.arg} if a.vararg else set()) | ({a.kwarg.arg} if a.kwarg else set())
+    for n in ast.walk(node):
+        if isinstance(n, (ast.Lambda, ast.GeneratorExp)):
+            inner = {x.arg for x in n.args.args} if isinstance(n, ast.Lambda) else {x.id for g_ in n.generators for x in ast.walk(g_.target) if isinstance(x, ast.Name)}
+            used = {x.id for x in ast.walk(n.body if isinstance(n, ast.Lambda) else n) if isinstance(x, ast.Name) and isinstance(x.ctx, ast.Load)}
+            if (used - inner) & own:
+                return True
+    return False
+
+
 def find_helpers(repo):
     defs = {}          # bare name -> [(module, FunctionDef, ClassInfo|None, nested?)]
     for fi in repo.functions.values():
@@ -366,15 +388,6 @@ def find_helpers(repo):
                 f = n.func
                 if (isinstance(f, ast.Name) and f.id == name) or (isinstance(f, ast.Attribute) and f.attr == name):
                     bad = True        # recursive
-        # a closure made by the helper captures the helper's own variables, one binding per call:
-        # expanded into a loop of the caller it would capture the caller's loop variable instead
-        own = _assigned(node) | set(_params(node)) | ({a.vararg.arg} if a.vararg else set()) | ({a.kwarg.arg} if a.kwarg else set())
-        for n in ast.walk(node):
-            if isinstance(n, (ast.Lambda, ast.GeneratorExp)):
-                inner = {x.arg for x in n.args.args} if isinstance(n, ast.Lambda) else {x.id for g_ in n.generators for x in ast.walk(g_.target) if isinstance(x, ast.Name)}
-                used = {x.id for x in ast.walk(n.body if isinstance(n, ast.Lambda) else n) if isinstance(x, ast.Name) and isinstance(x.ctx, ast.Load)}
-                if (used - inner) & own:
-                    bad = True
         if bad:
             continue
         try:
@@ -646,12 +659,19 @@ class Inliner:
             out.extend(self.stmt(s, depth))
         return out
 
+    in_loop = 0
+
     def stmt(self, s, depth):
         # nested blocks first
         for fld in ('body', 'orelse', 'finalbody'):
             b = getattr(s, fld, None)
             if isinstance(b, list) and b and isinstance(b[0], ast.stmt) and not isinstance(s, (ast.FunctionDef, ast.ClassDef, ast.AsyncFunctionDef)):
-                setattr(s, fld, self.block(b, depth))
+                loop = isinstance(s, (ast.For, ast.While)) and fld == 'body'
+                self.in_loop += loop
+                try:
+                    setattr(s, fld, self.block(b, depth))
+                finally:
+                    self.in_loop -= loop
         for h in getattr(s, 'handlers', []) or []:
             h.body = self.block(h.body, depth)
         if isinstance(s, (ast.FunctionDef, ast.ClassDef, ast.AsyncFunctionDef)):
@@ -680,6 +700,8 @@ class Inliner:
             return [s]
         h, recv = self.resolve(call)
         if isinstance(s, ast.AugAssign) and not isinstance(s.target, ast.Name) and not pure_helper(h):
+            return [s]
+        if (self.in_loop or _in_comprehension(s, call)) and makes_closures(h.node):
             return [s]
         try:
             pre, new_s = self.expand(s, call, h, recv)
